@@ -33,7 +33,93 @@ def accept_set(body):
                 acc[v] = flow.reaches_ok(body, tgt)
             other = flow.reaches_ok(body, b.term.otherwise)
             return b.idx, acc, other
-    return None
+    return _accept_by_regions(body, c, tm)
+
+
+def _accept_by_regions(body, c, tm):
+    """The id is classified by comparisons with constants (if / else-if chains): every constant k the argument is
+    compared with splits the domain into regions; the points {k-1, k, k+1} of every k, 0 and the type maximum
+    hit every region.  Each point is walked through the CFG with its guards evaluated; a guard that is not a
+    function of the argument alone is followed on both edges (may-analysis)."""
+    from rules import pat
+    arg = ("arg", 1, body.locals[1].name)
+    bits = body.locals[1].ty.bits or 64
+    ks = set()
+    first = None
+    for b in body.blocks:
+        if b.cleanup or b.term.k != "switch":
+            continue
+        t = tm.of_operand(b.term.discr)
+        if any(q == arg for q in _sub(t)):
+            if first is None:
+                first = b.idx
+            for q in _sub(t):
+                if q[0] == "const" and isinstance(q[1], int):
+                    ks.add(q[1])
+    if first is None or not ks:
+        return None
+    pts = {0, (1 << bits) - 1}
+    for k in ks:
+        pts |= {x for x in (k - 1, k, k + 1) if 0 <= x < (1 << bits)}
+    oks = set(_ok_blocks(body))
+
+    def accepted(v):
+        seen = set()
+        work = [0]
+        while work:
+            x = work.pop()
+            if x in seen:
+                continue
+            seen.add(x)
+            if x in oks:
+                return True
+            blk = body.blocks[x]
+            if blk.cleanup:
+                continue
+            if blk.term.k == "switch":
+                t = tm.of_operand(blk.term.discr)
+                try:
+                    val = pat.eval_term(t, lambda q: v if q == arg else (_ for _ in ()).throw(pat.NotEvaluable(q))) \
+                        if not pat.cmp_sides(t) else int(pat.eval_cmp(t, lambda q: v if q == arg else (_ for _ in ()).throw(pat.NotEvaluable(q))))
+                    tgt = dict(blk.term.targets).get(val, blk.term.otherwise)
+                    work.append(tgt)
+                    continue
+                except (pat.NotEvaluable, pat.Overflow):
+                    pass
+            work.extend(c.succ[x])
+        return False
+    acc = {}
+    other = False
+    for v in sorted(pts):
+        a = accepted(v)
+        if v in ks:
+            acc[v] = a
+        elif a:
+            other = True
+    return first, acc, other
+
+
+def _sub(t, out=None):
+    out = [] if out is None else out
+    if isinstance(t, tuple):
+        if t and isinstance(t[0], str):
+            out.append(t)
+        for x in t:
+            if isinstance(x, tuple):
+                _sub(x, out)
+    return out
+
+
+def _ok_blocks(body):
+    out = []
+    for blk in body.blocks:
+        if blk.cleanup:
+            continue
+        for s in blk.stmts:
+            if s.k == "assign" and s.place.local == 0 and not s.place.proj and s.rv.k == "aggregate" and s.rv.agg == "adt" and \
+                    s.rv.adt_name.endswith("Result") and s.rv.variant == 0:
+                out.append(blk.idx)
+    return out
 
 
 def result_of(body, adt_suffix):
